@@ -42,6 +42,10 @@ def stress_job(rng, tier):
     tree = c10.initial_tree() + [{"path": "top.txt", "data": "top\n", "mtime": c10.T0},
                                  {"path": "d/sub/deep.txt", "data": "deep\n", "mtime": c10.T0},
                                  {"path": "d/c.gif", "data": "GIF89a", "mtime": c10.T0},
+                                 {"path": "d/tune.mp3", "data": "ID3" + "m" * 300, "mtime": c10.T0},
+                                 {"path": "d/data.bin", "data": "\x00\x01\x02" * 200, "mtime": c10.T0},
+                                 {"path": "d/sub/shot.jpg", "data": "\xff\xd8\xff\xe0" + "j" * 100, "mtime": c10.T0},
+                                 {"path": "pic.png", "data": "\x89PNG\r\n\x1a\n" + "p" * 100, "mtime": c10.T0},
                                  {"path": "d/.names", "data": "Path=./b.html\nName=Bee page\nNumb=1\n"}]
     reqs = {}
     for key, proto, gp in c10.PROTOKEYS:
@@ -55,8 +59,33 @@ def stress_job(rng, tier):
         return [rng.choice(dnames) if rng.random() < 0.5 else rng.choice(names) for _ in range(n)]
 
     sizes = [8, 32, 32] + ([64, 64] if tier == "thorough" else [])
-    return {"op": "c14_stress", "tree": tree, "servertypes": ["ThreadingTCPServer", "ForkingTCPServer"],
+    # start-up bursts against a perturbed threading server: staggered arrivals, listings first
+    lnames = [n for n in names if n.split(" ", 1)[1] in ("/d", "/", "/d/sub")]
+    perturbed = []
+    for nap, spread in ((0.003, 0.002), (0.004, None)) + (((0.002, 0.001), (0.006, None)) if tier == "thorough" else ()):
+        pn = [rng.choice(lnames) if rng.random() < 0.8 else rng.choice(names) for _ in range(12)]
+        offs = [round(i * spread, 4) for i in range(12)] if spread else sorted(round(rng.random() * 0.04, 4) for _ in range(12))
+        perturbed.append({"nap": nap, "names": pn, "offsets": offs, "after": ["gopher /d", "http /d", "gopherplus$ /", "gemini /d/sub"]})
+    return {"perturbed": perturbed,"op": "c14_stress", "tree": tree, "servertypes": ["ThreadingTCPServer", "ForkingTCPServer"],
             "requests": reqs, "bursts": [burst(n) for n in sizes], "probe": "gopher /d", "cold_each_burst": True}
+
+
+def lazy_job(rng):
+    tree = [{"path": "d", "kind": "dir"}, {"path": "d/a.txt", "data": "alpha\n", "mtime": c10.T0},
+            {"path": "d/b.html", "data": "<html><title>Bee</title></html>\n", "mtime": c10.T0},
+            {"path": "d/c.gif", "data": "GIF89a", "mtime": c10.T0}, {"path": "d/tune.mp3", "data": "ID3mmm", "mtime": c10.T0},
+            {"path": "d/data.bin", "data": "\x00\x01\x02", "mtime": c10.T0}, {"path": "d/z.tar.gz", "data": "\x1f\x8b", "mtime": c10.T0},
+            {"path": "d/sub", "kind": "dir", "mtime": c10.T0}, {"path": "d/a.txt.abstract", "data": "about a\n"},
+            {"path": "d/.names", "data": "Path=./b.html\nName=Bee page\n"}]
+    reqs = {}
+    for key, proto, gp in c10.PROTOKEYS:
+        for sel in ["/d", "/d/c.gif"]:
+            data, tls = gen.request_bytes(proto, sel, gplus=gp)
+            reqs[key + " " + sel] = {"data": gen.lat(data), "tls": tls}
+    lst = [n for n in sorted(reqs) if n.endswith(" /d")]
+    pairs = [["gopher /d", "gopher /d"], ["gopherplus$ /d", "http /d"], [rng.choice(lst), rng.choice(lst)],
+             [rng.choice(sorted(reqs)), rng.choice(lst)]]
+    return {"op": "c14_lazy", "tree": tree, "requests": reqs, "pairs": pairs, "max_points": 400}
 
 
 def classify_empty(job, res, i):
@@ -153,6 +182,30 @@ def run(tier):
                              "mismatches_against_pinned_variant": len(mism_p), **stats}
     chk.sample({"kind": "schedule", "initial_cache_file": KIND_NAMES[jobs[0]["kind"]], "schedule": jobs[0]["sched"],
                 "gates_passed": res[0]["res"]["gate_trace"], "observed": res[0]["res"]["obs"]})
+    # ---------------- deterministic: preemption at every line of every lazy-initialisation site ----------------
+    lj = lazy_job(rng)
+    lr = impl_run([lj])[0]
+    if not lr["ok"]:
+        raise RuntimeError(lr["err"] + "\n" + lr.get("tb", ""))
+    ld = lr["res"]
+    for site, cnt in ld["sites"].items():
+        chk.count(("lazy", site, cnt), nontrivial=True, n=cnt)
+    cov["lazy_preemption"] = {"trials": ld["trials"], "preemption_points_by_site": ld["sites"], "lazy_sites_found": ld["lazy_sites"],
+                              "wrong_answers": ld["nbad"],
+                              "note": "a first request after start-up is stopped before every line of the first invocation of every "
+                                      "pygopherd function that assigns a module-level name (found by STORE_GLOBAL in the loaded code); "
+                                      "a second request then runs to completion; both answers are compared with the answers the "
+                                      "requests get alone.  Deterministic; no directory cache in this leg."}
+    seen_sites = set()
+    for b in ld["bad"]:
+        found = True
+        if b["site"] in seen_sites:
+            continue
+        seen_sites.add(b["site"])
+        report({"what": "first requests after start-up: with %s stopped before line %d of %s, %s (%s) gets a response different "
+                        "from the one it gets alone" % (b["preempted_request"], b["before_line"], b["site"], b["which"],
+                                                        b["wrong_answer_of"]),
+                "detail": b, "all": ld["bad"][:6], "job": lj}, "lazy-init-preempt:" + b["site"])
     # ---------------- stress: real servers ----------------
     sj = stress_job(rng, tier)
     sr = impl_run([sj])[0]
@@ -162,12 +215,18 @@ def run(tier):
     for st, d in sr["res"].items():
         nreq = sum(b["n"] for b in d["bursts"])
         chk.count(("stress", st, nreq), nontrivial=True, n=nreq)
-        stress[st] = {"server": d["server"], "bursts": d["bursts"], "after": d["after"],
+        nreq_p = sum(b["n"] for b in d.get("perturbed", []))
+        if nreq_p:
+            chk.count(("stress-perturbed", st, nreq_p), nontrivial=True, n=nreq_p)
+        stress[st] = {"server": d["server"], "bursts": d["bursts"], "perturbed_startup_bursts": d.get("perturbed", []),
+                      "after": d["after"],
                       "sequential_requests": 2 * len(sj["requests"]), "burst_requests": nreq,
                       "mismatches": len(d["mismatches"]), "server_log_exceptions": d["server_log_exceptions"][:4]}
         seen = set()
         for m in d["mismatches"]:
             kind = "sequential-unstable" if m["phase"] == "sequential" else ("burst-empty-reply" if m.get("empty") else "burst-mismatch")
+            if "perturbed" in m["phase"]:
+                kind = "startup-" + kind
             tag = "%s:%s" % (kind, st)
             found = True
             if tag in seen:
@@ -194,7 +253,11 @@ def run(tier):
                              "one ephemeral port), bursts of N simultaneous clients released by a barrier (plaintext and TLS, "
                              "half of the TLS clients handshake before the barrier, half after), half of the requests listing "
                              "the same directory with a cold cache, the first burst being the very first requests after "
-                             "start-up; schedules are whatever the OS produced")
+                             "start-up; schedules are whatever the OS produced.  Perturbed leg (threading server): a freshly started "
+                             "server in which re.compile, eval and ConfigParser.get sleep a few ms the first 4 times they are called "
+                             "with a given argument from a worker thread and sys.setswitchinterval is 10 us (installed by the "
+                             "harness's launcher, nothing in /repo), first burst with staggered client start times, then the "
+                             "cached listings are fetched once more")
     cov["rule"] = ("deterministic part: seeded schedules over 2-4 real requests paused at the four cache-file gates x 4 kinds of "
                    "initial cache file, observations compared with Model/Conc.v run in Coq on the same schedule and with the "
                    "sequential answer; stress part: see coverage.stress.note; non-trivial = a schedule in which a reader "
